@@ -1,5 +1,83 @@
-/- C19 — property theorems only. -/
+/-
+C19 — value objects: equality, hashing, pickling, dask tokens and caches are coherent.
+
+Property theorems only.  Part (a): CRS caches over a heap with id reuse; part (b): the value
+types.  The invariant proof behind `transformer_correct` lives in `Lemmas/C19a.lean`.
+-/
 import OdcGeo.Model.C19
+import OdcGeo.Lemmas.C19a
+import OdcGeo.Lemmas.C19b
+
 namespace OdcGeo.C19
+
+/-! ## Part (a) — caches -/
+
+/-- **Transformer cache.**  After *any* history of real operations — constructions through
+every kind of spec, copies, pickles, `del`, garbage collections, earlier transformer
+requests, and every possible reuse of freed object ids by the allocator (the `pick`
+arguments) — the transformer returned for `(a, b)` converts from the system of `a` to the
+system of `b`. -/
+theorem transformer_correct (W : World) (h : List Op) (hreal : ∀ op ∈ h, op.real = true)
+    (a b : Nat) (xy : Bool) (ca cb : CrsObj)
+    (ha : assoc a (run W h).1.vars = some ca) (hb : assoc b (run W h).1.vars = some cb) :
+    (step W (run W h).1 (.transformer a b xy)).2 = .tr ca.info.sys cb.info.sys :=
+  transformer_correct_aux W h hreal a b xy ca cb ha hb
+
+/-- The invariant that carries it: the pyproj object of every live `CRS` instance is alive
+with the attributes the instance believes it has, and is pinned by an entry of
+`_crs_cache` (so its id can never be handed out again while a transformer key mentions it). -/
+theorem cache_pins_every_crs (W : World) (h : List Op) (hreal : ∀ op ∈ h, op.real = true)
+    (v : Nat) (c : CrsObj) (hv : assoc v (run W h).1.vars = some c) :
+    (c.obj, c.info) ∈ (run W h).1.heap ∧ ∃ ke ∈ (run W h).1.cache, ke.2.obj = c.obj :=
+  vars_pinned W h hreal v c hv
+
+/-- Two live instances holding the same object id describe the same pyproj object. -/
+theorem same_id_same_object (W : World) (h : List Op) (hreal : ∀ op ∈ h, op.real = true)
+    (a b : Nat) (ca cb : CrsObj)
+    (ha : assoc a (run W h).1.vars = some ca) (hb : assoc b (run W h).1.vars = some cb)
+    (hab : ca.obj = cb.obj) : ca.info = cb.info :=
+  vars_same_obj W h hreal a b ca cb ha hb hab
+
+/-- A three-system world used by the concrete witnesses below. -/
+def demoWorld : World where
+  fromText := fun t =>
+    if t = "A" then some ⟨0, "A", "WA", none⟩
+    else if t = "B" then some ⟨1, "B", "WB", none⟩
+    else if t = "C" then some ⟨2, "C", "WC", none⟩
+    else if t = "WA" then some ⟨0, "WA", "WA", none⟩
+    else none
+  fromEpsg := fun _ => none
+
+/-- What breaks when `_crs_cache` stops pinning (bounded / LRU cache, the artificial `evict`
+step): the entry for `A` is evicted, `A` is dropped and collected, its id is reused for `C`,
+and the transformer cached under `(id A, id B)` is returned for `(C, B)`: it converts
+system 0 → 1 where 2 → 1 was asked for. -/
+theorem transformer_stale_if_evicting_cex :
+    (run demoWorld [.mk 0 (.str "A") 0, .mk 1 (.str "B") 0, .transformer 0 1 true, .evict 0,
+        .drop 0, .gc, .mk 2 (.str "C") 0, .transformer 2 1 true]).2.getLast? = some (.tr 0 1) := by
+  decide
+
+/-- **History freedom of the string form (hence hash and token), partial.**
+Full statement: `str(CRS(spec))` is the same after every history.  It is *false* for the
+code as it is (finding F16, witness below) because a pyproj object used as a cache key
+collides with its own WKT text.  Proved part: for `int` / `str` specs, after every history
+that puts no pyproj object into the cache (no `CRS(pyproj_obj)`, no `CRS(dict)`), the
+result `(str, _epsg)` — or the error — is the one of a fresh interpreter, provided pyproj
+is coherent on spellings that share a key (`EPSG:n` in any letter case, `n`). -/
+theorem crs_str_history_free_partial (W : World) (hW : TextCoherent W) (h : List Op)
+    (ht : ∀ op ∈ h, op.textOnly = true) (spec : Spec) (hs : spec.textual = true) (pick : Nat) :
+    ((construct W (run W h).1 spec pick).2.map (fun c => (c.str, c.epsg))) = freshOut W spec :=
+  crs_str_history_free_aux W hW h ht spec hs pick
+
+/-- F16 witness: the same spec `CRS(wkt_text)` prints as the WKT in a fresh interpreter but
+as `A` when `CRS(pyproj_object)` was constructed first (and the other way round). -/
+theorem crs_str_history_dependent_cex :
+    (run demoWorld [.mk 0 (.str "WA") 0]).2.getLast? = some (.str "WA") ∧
+    (run demoWorld [.pnewText 0 "A" 0, .mk 1 (.pyproj 0) 0, .mk 0 (.str "WA") 0]).2.getLast?
+      = some (.str "A") ∧
+    (run demoWorld [.pnewText 0 "A" 0, .mk 1 (.pyproj 0) 0]).2.getLast? = some (.str "A") ∧
+    (run demoWorld [.mk 0 (.str "WA") 0, .pnewText 0 "A" 0, .mk 1 (.pyproj 0) 0]).2.getLast?
+      = some (.str "WA") := by
+  decide
 
 end OdcGeo.C19
